@@ -16,6 +16,26 @@ CLAIMED = {
         text='Exploration with an exhaustive sub-space: every single-bit flip of 26 base bundles (all CRC-type assignments, block types 1/6/7/10/192/200) and seeded bursts <= CRC width inside protected blocks; a mutant that alters a CRC-protected block and is invalid for the independent decoder must leave no trace (seen-set, application observer, CL output) in a fresh real agent. Output side: CRC fields of every byte string handed to the CL by local sends, forwards, fragmentation and status reports are recomputed on raw block spans.',
         note=_NOTE + ' Known finding: uint 0/1 -> CBOR false/true bursts pass because decode coerces bool to int (pinned by a unit test).',
     ),
+    'C05': dict(
+        technique='runtime monitor at the CL boundary of the real BP agent per send request, judged by an independent decoder, an integer tiling model and a no-MTU reference send',
+        text='Exploration, boundary-directed: per header configuration the MTU walks (non-payload size + k) so fragment offsets and lengths cross the 23/24 and 255/256 head boundaries within tens of fragments; payload 0..300 and 65530..70000; both origins (locally built, received-and-forwarded); integrity policy on/off; do-not-fragment, existing fragments and fitting bundles must equal the no-MTU send byte for byte; every output must decode, be <= MTU, tile the payload exactly and carry the right identity and extension blocks.',
+        note=_NOTE,
+    ),
+    'C10': dict(
+        technique='runtime history monitor: application and CL observers plus seen-table peek after every receive, against an executable reference model of the receive policy',
+        text='Exploration: seeded histories (1-40 bundles) with exact repeats, one-component look-alikes, fragments, own-source and administrative-endpoint bundles over random routing tables of overlapping anchored patterns; after each receive the observed deliveries, forwards, reports and seen-set are compared with the model.',
+        note=_NOTE,
+    ),
+    'C11': dict(
+        technique='runtime differential monitor on transmitted bytes: forwarded output of the real agent decoded by the independent RFC 9171 decoder and compared field by field with the received bundle',
+        text='Exploration over the product of hop-by-hop block combinations (previous node none/other/self, 0-2 hop counts, age, 0-2 unknown blocks), CRC types, dense/sparse/permuted numbering, creation time zero or not, lifetimes, dwell times and two routes; plus histories of different bundles through one agent to expose state carried between forwards.',
+        note=_NOTE,
+    ),
+    'C19': dict(
+        technique='runtime monitor of administrative records at the CL boundary against a reference expectation model, over the complete flag x report-to x outcome product',
+        text='Exploration with an exhaustive sub-space: all 2^5 request-flag subsets x 3 report-to values x 8 outcomes (incl. forward with real fragmentation, security failure, duplicate) x 3 CRC types = 2304 combinations, each on a fresh agent; report presence, addressee, subject, asserted set, times, flags and CRCs are checked.',
+        note=_NOTE + ' For "no route" and "duplicate" only the only-if direction and content are enforced.',
+    ),
     'C07': dict(
         technique='runtime monitor: recv_message recorder + receive-buffer probe on the real endpoint, judged by an independent RFC 9174 stream parser; codec differential both ways',
         text='Exploration with exhaustive sub-spaces: every composition (2^13) of 14-octet streams, every single cut of streams up to 300 octets, directed and random cuts of long streams, plus loop-driven runs; each feed step is checked for exactly-the-completed-messages and exact buffer occupancy. Codec half compares fields in both directions for directed boundary values and seeded random messages of all seven types and the contact header.',
